@@ -388,8 +388,13 @@ def offset (x : F64) (xh : Int) : F64 :=
   let xf := x - F64.ofInt osgb_tile * F64.ofInt xh
   if F64.lt xf 0 then 0 else xf
 
+/-- the carry added by the repair of finding F74: `if (xf >= tile_) { xf = 0; ++xh; }` — for `−2^−37 ≤ x < 0` the sum
+`x + tile_` rounds to `tile_`; the point is moved to the start of the next tile -/
+def carry (xf : F64) (xh : Int) : F64 × Int :=
+  if F64.ge xf (F64.ofInt osgb_tile) then (0, xh + 1) else (xf, xh)
+
 /-- what the floating part of `GridReference` computes for one coordinate at precision `p`:
-`h = ⌊x / tile⌋`, `i1 = ⌊xf / 10^max(5−p,0)⌋`, and for `p > 5` `i2 = ⌊(xf − ⌊xf⌋)·10^(p−5)⌋` -/
+`h = ⌊x / tile⌋` (plus the carry), `i1 = ⌊xf / 10^max(5−p,0)⌋`, and for `p > 5` `i2 = ⌊(xf − ⌊xf⌋)·10^(p−5)⌋` -/
 structure Sc where
   h : Int
   i1 : Int
@@ -397,13 +402,14 @@ structure Sc where
 deriving Repr, DecidableEq
 
 def scaleCoord (x : F64) (p : Nat) : Sc :=
-  let xh := fl (x / F64.ofInt osgb_tile)
-  let xf := offset x xh
+  let xh0 := fl (x / F64.ofInt osgb_tile)
+  let c := carry (offset x xh0) xh0
+  let xf := c.1
   let tl := osgb_tilelevel.toNat
   let mult := pow10 (tl - p)
   let i1 := fl (xf / mult)
   let i2 := if p > tl then fl ((xf - F64.floor (xf / mult)) * pow10 (p - tl)) else 0
-  ⟨xh, i1, i2⟩
+  ⟨c.2, i1, i2⟩
 
 /-- the two tile letters of the 100 km square `(xh, yh)` (indices *before* the false-origin shift `tileoff·`):
 first letter = 500 km square, second = 100 km square inside it, rows counted from the north -/
